@@ -93,7 +93,8 @@ def random_step(rnd, df, vars_, only_rot=False):
     r = rnd.random()
     ref = () if rnd.random() < 0.4 else tuple(_pair(_rq(rnd, -20, 20, (1, 2))) for _ in range(nd))
     if r < 0.08:
-        bads = ["same-axis", "unknown-axis", "float-k"] + ([] if isfield else ["vector-too-long", "vector-of-strings", "factor-too-long", "factor-string", "ref-too-long"])
+        bads = ["same-axis", "unknown-axis", "float-k", "rot-ref-complex"] + ([] if isfield else ["vector-too-long", "vector-of-strings", "factor-too-long", "factor-string", "ref-too-long",
+                                                                                   "vector-complex", "factor-complex", "ref-complex"])
         return {"x": x, "kind": "malformed", "args": {"bad": rnd.choice(bads)}, "inplace": ip}
     if isfield or only_rot or r < 0.45:
         a, b = rnd.sample(range(1, nd + 1), 2)
@@ -158,6 +159,10 @@ def gen_history(df, rnd, tid, inits, emb, maxlen, only_rot=False, avoid_alias=Fa
         new_vars = dict(vars_)
         if outcome == "ok" and not st["inplace"]:
             new_vars[st["x"]] = ret
+            if rnd.random() < 0.5 and len(new_vars) < 6:
+                # the operand of a copying step stays in the user's hands under another name: later in-place steps on the
+                # copy must not reach it (seeded change C12-12: the copy shared its cell-count array with the original)
+                new_vars["k%d" % len(t["ev"])] = obj
         try:
             post, rpost = rec.heap(new_vars), rec.roots(new_vars)
         except TooBig:
@@ -185,6 +190,12 @@ def run_traces(ctx, df, ntraces, module="MC_C13", cfg0="C13_d0.cfg", only_rot=Fa
             traces.append(gen_history(df, rnd, tnum + 1, inits, rnd.choice(embs), 5 if ctx.tier == "quick" else 8, only_rot, avoid_alias))
         except OffLattice as ex:
             ctx.violation("trace:off-lattice", "a transformed coordinate or value is not the exact affine image (could not be projected)", {"detail": str(ex)})
+        except TooBig:
+            # gen_history ends a history whose coordinates grow beyond the logged range; only the projection of the freshly
+            # built objects can arrive here: they do not have the small lattice coordinates of the scenario they were built from
+            ctx.violation(f"trace:{prefix}_MeshNormal/construction/objects-off-scenario",
+                          "the objects built for a scenario (Region, Mesh with subregions given as Region objects, Field) do not have the scenario's coordinates",
+                          {"trace": tnum + 1})
     traces = [t for t in traces if t["ev"]]
     r, verdicts, _ = ctx.trace_check("C13Trace", "C13Trace.cfg", traces, heap="8g")
     expect = sum(len(t["ev"]) + 1 for t in traces)
